@@ -50,7 +50,9 @@ def generate(rng, tier, index):
     if index < SYSTEMATIC_RUNS[tier]:
         return _generate_systematic(rng, tier)
     many = rng.random() < 0.25
-    wp = world.gen_world_plan(rng, backends=("simfs", "simfs", "simfs_opt", "local"),
+    # (memory:// hands out ONE shared file object per path - its reads and seeks are scheduling
+    # points too)
+    wp = world.gen_world_plan(rng, backends=("simfs", "simfs", "simfs_opt", "local", "memory"),
                               max_images=3, max_lines=16, max_pixels=8,
                               n_images=rng.randint(5, 8) if many else None)
     n_img = len(wp["images"])
